@@ -1,9 +1,26 @@
 """C01 — every scan cycle ends in success or a value-dependent fault, never a crash."""
+import os
+import vlib
 from checks import st_common
+
+CASE_PROBE = "PROGRAM P\nVAR\n  limit : DINT := 3;\n  acc : DINT;\nEND_VAR\nacc := acc + Limit;\nEND_PROGRAM\n"
+
+
+def case_probe():
+    """an accepted program that refers to a variable with a different case than its declaration"""
+    binary = vlib.cargo_build("stprobe")
+    path = os.path.join(vlib.CACHE, "c01_case_probe.st")
+    open(path, "w").write(CASE_PROBE)
+    rc, out = vlib.run([binary, path], timeout=120)
+    hit = "UndefinedVariable" in out or "compile error" not in out and "cycle errors: []" not in out
+    return hit, "an accepted program fails with the static-class fault UndefinedVariable because the runtime looks the variable up case-sensitively: " + out.strip()[:200], CASE_PROBE
+
 
 def check(tier):
     return st_common.run("C01", tier, "J01", "an accepted program panicked, left a call frame behind or raised a static-class fault",
-                         "assign-uncoerced-static-fault", "static-class fault reached through values stored with a foreign type tag", "C01")
+                         "assign-uncoerced-static-fault", "static-class fault reached through values stored with a foreign type tag", "C01",
+                         probes=[("case-sensitive-variable-lookup", case_probe)])
+
 
 def replay(path):
     return st_common.replay("C01", path)
